@@ -117,10 +117,9 @@ func NewBr(target *Block) *TermBr {
 
 // Succs returns the successor basic blocks of the terminator.
 func (term *TermBr) Succs() []*Block {
-	// Cache successors if not present.
-	if term.Successors == nil {
-		term.Successors = []*Block{term.Target.(*Block)}
-	}
+	// Successors are derived from the operands on every call, so that they
+	// stay correct when a target is changed through Operands().
+	term.Successors = []*Block{term.Target.(*Block)}
 	return term.Successors
 }
 
@@ -167,10 +166,7 @@ func NewCondBr(cond value.Value, targetTrue, targetFalse *Block) *TermCondBr {
 
 // Succs returns the successor basic blocks of the terminator.
 func (term *TermCondBr) Succs() []*Block {
-	// Cache successors if not present.
-	if term.Successors == nil {
-		term.Successors = []*Block{term.TargetTrue.(*Block), term.TargetFalse.(*Block)}
-	}
+	term.Successors = []*Block{term.TargetTrue.(*Block), term.TargetFalse.(*Block)}
 	return term.Successors
 }
 
@@ -217,15 +213,12 @@ func NewSwitch(x value.Value, targetDefault *Block, cases ...*Case) *TermSwitch 
 
 // Succs returns the successor basic blocks of the terminator.
 func (term *TermSwitch) Succs() []*Block {
-	// Cache successors if not present.
-	if term.Successors == nil {
-		succs := make([]*Block, 0, 1+len(term.Cases))
-		succs = append(succs, term.TargetDefault.(*Block))
-		for _, c := range term.Cases {
-			succs = append(succs, c.Target.(*Block))
-		}
-		term.Successors = succs
+	succs := make([]*Block, 0, 1+len(term.Cases))
+	succs = append(succs, term.TargetDefault.(*Block))
+	for _, c := range term.Cases {
+		succs = append(succs, c.Target.(*Block))
 	}
+	term.Successors = succs
 	return term.Successors
 }
 
@@ -309,13 +302,12 @@ func NewIndirectBr(addr value.Value, validTargets ...*Block) *TermIndirectBr {
 
 // Succs returns the successor basic blocks of the terminator.
 func (term *TermIndirectBr) Succs() []*Block {
-	// Cache successors if not present.
-	if term.Successors == nil {
-		// convert ValidTargets slice to []*ir.Block.
-		for _, target := range term.ValidTargets {
-			term.Successors = append(term.Successors, target.(*Block))
-		}
+	// convert ValidTargets slice to []*ir.Block.
+	succs := make([]*Block, 0, len(term.ValidTargets))
+	for _, target := range term.ValidTargets {
+		succs = append(succs, target.(*Block))
 	}
+	term.Successors = succs
 	return term.Successors
 }
 
@@ -420,10 +412,7 @@ func (term *TermInvoke) Type() types.Type {
 
 // Succs returns the successor basic blocks of the terminator.
 func (term *TermInvoke) Succs() []*Block {
-	// Cache successors if not present.
-	if term.Successors == nil {
-		term.Successors = []*Block{term.NormalRetTarget.(*Block), term.ExceptionRetTarget.(*Block)}
-	}
+	term.Successors = []*Block{term.NormalRetTarget.(*Block), term.ExceptionRetTarget.(*Block)}
 	return term.Successors
 }
 
@@ -586,14 +575,12 @@ func (term *TermCallBr) Type() types.Type {
 
 // Succs returns the successor basic blocks of the terminator.
 func (term *TermCallBr) Succs() []*Block {
-	// Cache successors if not present.
-	if term.Successors == nil {
-		term.Successors = []*Block{term.NormalRetTarget.(*Block)}
-		// Convert OtherRetTargets slice to []*ir.Block.
-		for _, otherRetTarget := range term.OtherRetTargets {
-			term.Successors = append(term.Successors, otherRetTarget.(*Block))
-		}
+	succs := []*Block{term.NormalRetTarget.(*Block)}
+	// Convert OtherRetTargets slice to []*ir.Block.
+	for _, otherRetTarget := range term.OtherRetTargets {
+		succs = append(succs, otherRetTarget.(*Block))
 	}
+	term.Successors = succs
 	return term.Successors
 }
 
@@ -784,16 +771,15 @@ func (term *TermCatchSwitch) Type() types.Type {
 
 // Succs returns the successor basic blocks of the terminator.
 func (term *TermCatchSwitch) Succs() []*Block {
-	// Cache successors if not present.
-	if term.Successors == nil {
-		// convert Handlers slice to []*ir.Block.
-		for _, handler := range term.Handlers {
-			term.Successors = append(term.Successors, handler.(*Block))
-		}
-		if defaultUnwindTarget, ok := term.DefaultUnwindTarget.(*Block); ok {
-			term.Successors = append(term.Successors, defaultUnwindTarget)
-		}
+	// convert Handlers slice to []*ir.Block.
+	succs := make([]*Block, 0, len(term.Handlers)+1)
+	for _, handler := range term.Handlers {
+		succs = append(succs, handler.(*Block))
 	}
+	if defaultUnwindTarget, ok := term.DefaultUnwindTarget.(*Block); ok {
+		succs = append(succs, defaultUnwindTarget)
+	}
+	term.Successors = succs
 	return term.Successors
 }
 
@@ -860,10 +846,9 @@ func NewCatchRet(catchPad *InstCatchPad, target *Block) *TermCatchRet {
 
 // Succs returns the successor basic blocks of the terminator.
 func (term *TermCatchRet) Succs() []*Block {
-	// Cache successors if not present.
-	if term.Successors == nil {
-		term.Successors = []*Block{term.Target.(*Block)}
-	}
+	// Successors are derived from the operands on every call, so that they
+	// stay correct when a target is changed through Operands().
+	term.Successors = []*Block{term.Target.(*Block)}
 	return term.Successors
 }
 
@@ -921,13 +906,10 @@ func NewCleanupRet(cleanupPad *InstCleanupPad, unwindTarget *Block) *TermCleanup
 
 // Succs returns the successor basic blocks of the terminator.
 func (term *TermCleanupRet) Succs() []*Block {
-	// Cache successors if not present.
-	if term.Successors == nil {
-		if unwindTarget, ok := term.UnwindTarget.(*Block); ok {
-			term.Successors = []*Block{unwindTarget}
-		} else {
-			term.Successors = []*Block{}
-		}
+	if unwindTarget, ok := term.UnwindTarget.(*Block); ok {
+		term.Successors = []*Block{unwindTarget}
+	} else {
+		term.Successors = []*Block{}
 	}
 	return term.Successors
 }
